@@ -1,11 +1,11 @@
 """C11 Any byte string as input file is handled cleanly: failure, no crash, no output."""
 from .common import combined
 LEVEL = 'other'
-RULES = ('R04.g', 'R04.f', 'R11.a', 'R11.b', 'R11.g', 'S-CMP', 'R07.e', 'R07.g', 'R01.e', 'R11.d', 'R11.f', 'S-GATE', 'R01.b', 'R01.c', 'R01.d', 'R12.a', 'R12.b', 'R07.d')
+RULES = ('R04.g', 'R04.f', 'R11.a', 'R11.b', 'R11.g', 'S-CMP', 'R07.e', 'R07.g', 'R01.e', 'R11.d', 'R11.f', 'S-GATE', 'R01.b', 'R01.c', 'R01.d', 'R12.a', 'R12.b', 'R07.d', 'R01.j', 'R11.h')
 
 
 def run(prog, rec, tier):
-    combined(prog, rec, tier, RULES, driver=('reader', 'bounds'), hmac=('scmp',), pipe=True, hash=('finaliser', 'finaliser_bounds', 'drivers', 'buffer', 'buffer_sim'),
+    combined(prog, rec, tier, RULES, driver=('reader', 'bounds'), hmac=('scmp', 'structure'), pipe=True, hash=('finaliser', 'finaliser_bounds', 'drivers', 'buffer', 'buffer_sim'),
              explanation='On every abstract path of verify/decrypt from a constructor-built object (mode bytes, tag and IVs as unknown file '
              'bytes, short reads included): no NULL result of a factory is dereferenced, the cipher selector handed to the stream factory lies '
              'in the factory\'s non-NULL cases, header reads fit their buffers for every T, nothing reaches the output unless verification '
